@@ -443,6 +443,10 @@ type c08server struct {
 	lift   func(nonce []byte) ([]byte, error)
 	wg     sync.WaitGroup
 	errs   []string
+	// fault sequences (c08 retry): the first failFirst handshakes are answered as firstKind says
+	// (nil: no certificate at all), the later ones as d
+	failFirst int
+	firstKind *c08desc
 }
 
 func c08startServer(w *c08world, d c08desc, tok string) (*c08server, error) {
@@ -465,6 +469,15 @@ func c08startServer(w *c08world, d c08desc, tok string) (*c08server, error) {
 			s.mu.Unlock()
 			if rec {
 				return nil, errors.New("only collecting the nonce")
+			}
+			s.mu.Lock()
+			attempt, ff, fk := len(s.nonces), s.failFirst, s.firstKind
+			s.mu.Unlock()
+			if attempt <= ff {
+				if fk == nil {
+					return nil, errors.New("this attempt is aborted")
+				}
+				return w.cert(*fk, nonce, stale, nil)
 			}
 			if d.ncerts == 0 && d.decoy == "none" {
 				return nil, errors.New("no certificate to present")
